@@ -234,6 +234,14 @@ pub fn c17(ctx: &RunCtx) -> Vec<Finding> {
             continue;
         };
         let prev_op = ops.iter().find(|o| o.end == snap.out_len).map(|o| lexer::name(o.code)).unwrap_or("start");
+        if prev_op == "STOP" {
+            // the reference machine halts at STOP and hands out the object on top; the oracle does not demand
+            // that the simulation pops its result (nothing is emitted afterwards): compare as if it were kept
+            if snap.stack.len() != rs.len() + 1 && snap.stack.len() != rs.len() {
+                v.push(f("C17", "depth:STOP", format!("after STOP: simulated depth {} vs reference {} (+1 result)", snap.stack.len(), rs.len())));
+            }
+            continue;
+        }
         if rs.len() != snap.stack.len() {
             v.push(f(
                 "C17",
